@@ -115,11 +115,16 @@ class Context:
                 "*": operator.mul,
                 "%": operator.mod,
             }
+            if expr.op not in ops:
+                raise SemanticError(
+                    f"Operator {expr.op} not supported in constant", expr.loc
+                )
+            if expr.op in ("/", "%") and b == 0:
+                raise SemanticError("Division by zero in constant", expr.loc)
             if (
                 expr.op in ("/", "%")
                 and isinstance(a, int)
                 and isinstance(b, int)
-                and b != 0
             ):
                 # Integer division truncates toward zero, and the
                 # remainder takes the sign of the dividend (as the
